@@ -141,7 +141,7 @@ def gen_cases(rs, tier):
             if k not in seen:
                 seen.add(k); add('conn-iso-n%d' % n, A)
     if quick:
-        idx = rs.choice(len(lab), size=40, replace=False)
+        idx = rs.choice(len(lab), size=160, replace=False)
         for i in idx:
             add('conn-labelled', lab[int(i)], ds=(DAMP[int(i) % 3],))
     else:
@@ -168,7 +168,7 @@ def gen_cases(rs, tier):
               disjoint(cycle(4), path(3)), disjoint(cycle(3), cycle(3), cycle(3))]:
         add('disjoint', G)
     # weighted undirected connected
-    for t in range(20 if quick else 150):
+    for t in range(60 if quick else 300):
         n = int(rs.randint(3, 7))
         while True:
             A = rand_graph(rs, n, rs.choice([0.4, 0.6, 0.9]), False, wmax=int(rs.choice([2, 3, 5])))
@@ -182,7 +182,7 @@ def gen_cases(rs, tier):
     for G in [cycle(4) * 2, kab(2, 3) * 3, cycle(6) * 2, disjoint(cycle(4) * 2, cycle(4))]:
         add('weighted-sym', G)
     # strongly connected directed (random-walk measures + findwalks)
-    for t in range(25 if quick else 200):
+    for t in range(80 if quick else 400):
         n = int(rs.randint(3, 7))
         A = rand_strong(rs, n, 1 if t % 2 == 0 else 3)
         f = [int(x) for x in rs.randint(1, 4, size=n)] if t % 3 == 0 else None
@@ -193,7 +193,7 @@ def gen_cases(rs, tier):
             A[i, (i + 1) % n] = 1
         add('dir-cycle', A, kind='dir')       # periodic chain, complex spectrum
     # arbitrary binary digraphs: findwalks only
-    for t in range(15 if quick else 150):
+    for t in range(40 if quick else 200):
         n = int(rs.randint(2, 7))
         add('any-dir', rand_graph(rs, n, rs.choice([0.2, 0.5, 0.8]), True), kind='dirany')
     if not quick:
